@@ -235,9 +235,9 @@ func (s *Scanner) parseCertificate(
 
 	switch err.(type) {
 	case x509.NonFatalErrors:
-		s.entriesWithNonFatalErrors++
+		atomic.AddInt64(&s.entriesWithNonFatalErrors, 1)
 	default:
-		s.unparsableEntries++
+		atomic.AddInt64(&s.unparsableEntries, 1)
 		isFatal = true
 	}
 
@@ -341,7 +341,7 @@ func (s *Scanner) processEntry(entry ct.LogEntry, foundCert func(*ct.LogEntry, s
 			foundPrecert(&entry, s.opts.Name)
 		}
 
-		s.precertsSeen++
+		atomic.AddInt64(&s.precertsSeen, 1)
 	}
 }
 
@@ -472,8 +472,9 @@ func (s *Scanner) Scan(foundCert func(*ct.LogEntry, string),
 		//oldProc := int64(0)
 		for range ticker.C {
 
-			throughput := float64(s.certsProcessed) / time.Since(startTime).Seconds()
-			remainingCerts := int64(stopIndex) - int64(s.opts.StartIndex) - s.certsProcessed
+			certsProcessed := atomic.LoadInt64(&s.certsProcessed)
+			throughput := float64(certsProcessed) / time.Since(startTime).Seconds()
+			remainingCerts := int64(stopIndex) - int64(s.opts.StartIndex) - certsProcessed
 
 			if remainingCerts == 0 {
 				updater <- int64(stopIndex)
@@ -482,8 +483,8 @@ func (s *Scanner) Scan(foundCert func(*ct.LogEntry, string),
 
 			remainingSeconds := int(float64(remainingCerts) / throughput)
 			remainingString := humanTime(remainingSeconds)
-			s.logger.Infof("Processed: %d %s certs (to index %d). Throughput: %3.2f ETA: %s\n", s.certsProcessed, s.opts.Name,
-				s.opts.StartIndex+int64(s.certsProcessed), throughput, remainingString)
+			s.logger.Infof("Processed: %d %s certs (to index %d). Throughput: %3.2f ETA: %s\n", certsProcessed, s.opts.Name,
+				s.opts.StartIndex+certsProcessed, throughput, remainingString)
 
 			updater <- int64(stopIndex) - remainingCerts
 		}
